@@ -13,6 +13,7 @@ from pyvc.api import UNITS, unit
 from pyvc.values import NamedTuple, V
 
 LEVEL = "proof"
+BOUNDED = [{"name": "gaussian_interval_rows_aligned", "script": "c15_gaussian.py", "timeout": 2400}]
 MRH = "elexmodel.handlers.data.ModelResults.ModelResultsHandler"
 ASSUMPTIONS = C03.ASSUMPTIONS + [
     "gaussian estimator: the aggregate identity is checked for the counted-votes part only; alignment of its interval rows rests on C15 (bounded)",
